@@ -1,5 +1,8 @@
 import Lean
 import ErdosVerif.Model.Sim
+import ErdosVerif.Lemmas.LedgerPool
+import ErdosVerif.Lemmas.GraphInv
+import ErdosVerif.Lemmas.Event
 /-!
 Auxiliary declarations for the proofs over `Model/Sim.lean`.
 
@@ -12,15 +15,22 @@ simulator model independently of each other (e.g. `Lemmas/SimInv.lean` and
 imported together (the registry audit imports all modules of a property at once).
 
 This module generates these declarations once, for every matcher and sparse `casesOn` of
-`Model/Sim.lean`; every development over the simulator model imports it (directly or
+`Model/Sim.lean` and of the models it is built on (`Task`, `TaskGraph`, `Ledger`, `Heap`,
+`Event`); it imports the lemma libraries over those models so that whatever they already
+generated is reused. Every development over the simulator model imports it (directly or
 through `Lemmas/SimInv.lean`). It contains no definitions, theorems or attributes of its own.
 -/
 open Lean Meta in
 run_meta do
   let env ← getEnv
-  let some idx := env.getModuleIdx? `ErdosVerif.Model.Sim | throwError "Model.Sim not imported"
+  let mods := [`ErdosVerif.Model.Sim, `ErdosVerif.Model.Task, `ErdosVerif.Model.TaskGraph, `ErdosVerif.Model.Ledger,
+    `ErdosVerif.Model.Heap, `ErdosVerif.Model.Event]
+  let idxs := mods.filterMap env.getModuleIdx?
+  if idxs.length != mods.length then throwError "a model module is not imported"
   let names := env.constants.map₁.toList.filterMap fun (n, _) =>
-    if env.getModuleIdxFor? n == some idx then some n else none
+    match env.getModuleIdxFor? n with
+    | some i => if idxs.contains i then some n else none
+    | none => none
   let names := names.toArray.qsort (fun a b => a.toString < b.toString)
   for n in names do
     if (← getMatcherInfo? n).isSome then
